@@ -111,6 +111,20 @@ Qed.
 (* ================================================================== *)
 (* c_delineate_flowpathlengths_in_catchment *)
 
+(* a cell outside the grid: c_downstream returns an error and leaves idxdown[0] alone *)
+Lemma down1_invalid nrows ncols code flowdir c d0 :
+  - MAX64 - 1 <= nrows * ncols <= MAX64 -> ~ (0 <= c < nrows * ncols) ->
+  down1 nrows ncols code flowdir c d0 = Next (1, d0).
+Proof.
+  intros Hg Hc. unfold down1, downstream, forZ. cbn [Z.sub Z.to_nat Pos.to_nat Pos.iter_op Nat.add for_loop].
+  rewrite (rd_ok "idxup" 0 [c] 0) by (cbn; lia). cbn [bindr].
+  rewrite chk64_ok' by lia. cbn [bindr].
+  replace ((nth (Z.to_nat 0) [c] 0 <? 0) || (nrows * ncols <=? nth (Z.to_nat 0) [c] 0)) with true.
+  - reflexivity.
+  - symmetry. cbn [nth Z.to_nat]. apply orb_true_iff.
+    destruct (Z_lt_ge_dec c 0); [left; apply Z.ltb_lt; auto|right; apply Z.leb_le; lia].
+Qed.
+
 Lemma flowpathlengths_safe : forall nrows ncols code flowdir nval area outlet fpl,
   0 <= nrows -> 0 <= ncols -> nrows * ncols <= MAX64 ->
   Zlen code = 9 -> Zlen flowdir = nrows * ncols -> Zlen area = nval -> Zlen fpl = 3 * nval ->
@@ -127,18 +141,70 @@ Proof.
     - eapply post3_weaken.
       { apply (for_loop_inv3 (fun s => 0 <= fp_down s -> 0 < ncols) (fun _ _ => True)); [cbn; lia|].
         intros j s Hs.
-        eapply post3_call_next; [apply down1_post; auto; lia|].
-        cbn beta. intros [rc d] (B1 & B2 & B3). cbn [fst snd] in *.
-        destruct ((d <? 0) || (0 <? rc)) eqn:E.
-        { cbn. apply orb_true_iff in E. intros Hd. destruct E; zb; [lia|].
-          (* rc = 1: idxdown[0] kept its previous content *)
-          destruct B1; [lia|]. assert (Hnc : 0 < ncols \/ ncols <= 0) by lia. destruct Hnc; auto.
-          (* ncols <= 0 is impossible only when a previous call succeeded: use the invariant *)
-          exfalso. revert Hd. cbn. intros Hd.
-          (* d may be anything here: strengthen through down1's contract *)
-          admit. }
-        admit. }
+        assert (Hv : 0 <= fp_up s < ntot \/ ~ (0 <= fp_up s < ntot)) by lia.
+        destruct Hv as [Hv|Hv].
+        - eapply post3_call_next; [apply down1_post; auto; lia|].
+          cbn beta. intros [rc d] (B1 & B2 & B3). cbn [fst snd] in *.
+          assert (Hnc : 0 < ncols) by (unfold ntot in *; nia).
+          destruct ((d <? 0) || (0 <? rc)); [cbn; auto|].
+          destruct (d =? outlet); [cbn; auto|].
+          destruct (getnxy_any ncols d ltac:(lia)) as (p1 & G1). rewrite G1. cbn [bindr].
+          destruct (getnxy_any ncols (fp_up s) ltac:(lia)) as (p2 & G2). rewrite G2. cbn; auto.
+        - rewrite down1_invalid by (auto; unfold MAX64, ntot in *; nia).
+          cbn [call]. rewrite orb_true_r. cbn. auto. }
       all: fin3.
-    - admit. }
+    - intros s Hs.
+      assert (Eg : exists u, (if (fp_ipath s + 1 <? nval) && (0 <=? fp_down s)
+                   then let? _ := getnxy ncols (fp_down s) in let? _ := getnxy ncols (fp_up s) in Ok tt
+                   else Ok tt) = Ok u).
+      { destruct ((fp_ipath s + 1 <? nval) && (0 <=? fp_down s)) eqn:E; [|eauto]. zb.
+        specialize (Hs ltac:(lia)).
+        destruct (getnxy_any ncols (fp_down s) ltac:(lia)) as (p1 & G1). rewrite G1. cbn [bindR].
+        destruct (getnxy_any ncols (fp_up s) ltac:(lia)) as (p2 & G2). rewrite G2. cbn [bindR]. eauto. }
+      destruct Eg as (u & Eu). rewrite Eu. cbn [bindr].
+      acc3. acc3.
+      rewrite (mark_ok "flowpathlengths" _ (3 * i + 1)) by (rewrite ?Zlen_upd; lia). cbn [bindr].
+      rewrite (mark_ok "flowpathlengths" _ (3 * i + 2)) by (rewrite ?Zlen_upd; lia). cbn.
+      now rewrite !Zlen_upd. }
   all: fin3.
-Admitted.
+Qed.
+
+(* ================================================================== *)
+(* c_inside: at least one vertex (the wrapper's min()/max() raise on an empty polygon) *)
+
+Section Inside.
+Context {T : Type} (N : NumOps T).
+
+Lemma inside_safe : forall nprint npoints points nvertices polygon xlim ylim ins,
+  1 <= nvertices <= 1073741823 ->
+  Zlen points = 2 * npoints -> Zlen polygon = 2 * nvertices -> Zlen xlim = 2 -> Zlen ylim = 2 ->
+  Zlen ins = npoints ->
+  safe (inside N nprint npoints points nvertices polygon xlim ylim ins).
+Proof.
+  intros nprint npoints points nvertices polygon xlim ylim ins Hv Hp Hpo Hx Hy Hi.
+  unfold inside.
+  apply (post3_safe _ (fun _ => True) (fun _ => True) (fun _ _ => True)).
+  apply post3_finish. eapply post3_weaken.
+  { apply (forZ_inv3 (fun o => Zlen o = npoints) (fun _ _ => True)); auto.
+    intros ipt o Hj I1. acc3. acc3. acc3. acc3. acc3. acc3.
+    destruct (_ || _); [cbn; auto|].
+    assert (Ep : exists v, (if 0 <? nprint then zmod ipt nprint else Ok 0) = Ok v).
+    { unfold zmod. destruct (0 <? nprint) eqn:E; zb; [|eauto].
+      destruct (nprint =? 0) eqn:E2; zb; [lia|eauto]. }
+    destruct Ep as (v & Ev). rewrite Ev. cbn [bindr].
+    acc3. acc3. acc3.
+    eapply (post3_sub _ _ _ (fun _ => True)).
+    - eapply post3_weaken.
+      { apply (forZ_inv3 (fun _ : unit => True) (fun _ _ => True)); auto.
+        intros ivert u Hiv _. unfold zmod.
+        destruct (nvertices =? 0) eqn:E; zb; [lia|]. cbn [bindr].
+        assert (Hm := Z.rem_bound_pos ivert nvertices ltac:(lia) ltac:(lia)).
+        rewrite (chk32_ok (2 * Z.rem ivert nvertices)) by lia.
+        unfold mul32. rewrite chk32_ok by lia. cbn [bindr].
+        acc3. acc3. cbn; auto. }
+      all: fin3.
+    - intros _ _. cbn. now rewrite Zlen_upd. }
+  all: fin3.
+Qed.
+
+End Inside.
